@@ -238,6 +238,23 @@ pub fn build_layout(d: &Value, km: &KeyMap, rng: &mut impl rand::Rng) -> Metadat
     MetadataWrapper::Layout(b.build().unwrap())
 }
 
+/// give every command-like array arguments that a tokeniser would split or drop
+fn craft_commands(v: &mut Value) {
+    match v {
+        Value::Object(o) => {
+            for (k, x) in o.iter_mut() {
+                if matches!(k.as_str(), "command" | "expected_command" | "run") && x.is_array() {
+                    *x = json!(["sh", "-c", "echo hello  world", "", " ", "\ttab"]);
+                } else {
+                    craft_commands(x);
+                }
+            }
+        }
+        Value::Array(a) => a.iter_mut().for_each(craft_commands),
+        _ => {}
+    }
+}
+
 pub struct Ctx {
     km: KeyMap,
     rng: rand::rngs::StdRng,
@@ -278,13 +295,24 @@ impl Ctx {
                 (a, c)
             }
         };
+        // parsing never silently alters a field it accepts: start from TEXT whose command arguments
+        // (and other strings) contain white space / are empty, parse, serialise, compare as JSON
+        let mut crafted = serde_json::to_value(&meta).unwrap();
+        craft_commands(&mut crafted);
+        let mut parse_alters = None;
+        if let Ok(Ok(back)) = parse_via::<MetadataWrapper>(&crafted.to_string(), "str") {
+            let again = serde_json::to_value(&back).unwrap();
+            if again != crafted {
+                parse_alters = Some("parse altered a field of an accepted document (crafted command arguments)".to_string());
+            }
+        }
         // the auto-detecting byte parser must agree with the typed one
         let bytes = serde_json::to_vec(&meta).unwrap();
         let auto = guarded(|| MetadataWrapper::try_from_bytes(&bytes));
         let auto_ok = matches!(&auto, Ok(Ok(m)) if *m == meta);
-        json!({"out": "ok", "value_ok": v1 && v2 && v3 && auto_ok, "text_ok": t1 && t2 && t3,
+        json!({"out": "ok", "value_ok": v1 && v2 && v3 && auto_ok && parse_alters.is_none(), "text_ok": t1 && t2 && t3,
                "channels_agree": a1 && a2 && a3,
-               "detail": d1.or(d2).or(d3).or(c1).or(c2).or(c3).or(if auto_ok { None } else { Some("try_from_bytes differs".to_string()) })})
+               "detail": parse_alters.or(d1).or(d2).or(d3).or(c1).or(c2).or(c3).or(if auto_ok { None } else { Some("try_from_bytes differs".to_string()) })})
     }
 }
 
@@ -299,6 +327,10 @@ fn ts_text(form: &str) -> Value {
 }
 
 pub fn pred_doc(fields: &[String], mat: &str, ts: &str) -> Value {
+    pred_doc_nest(fields, mat, ts, "full")
+}
+
+pub fn pred_doc_nest(fields: &[String], mat: &str, ts: &str, nest: &str) -> Value {
     let mut o = serde_json::Map::new();
     for f in fields {
         let v = match f.as_str() {
@@ -314,6 +346,18 @@ pub fn pred_doc(fields: &[String], mat: &str, ts: &str) -> Value {
             "command" => json!(["cc", "-c"]),
             "byproducts" => json!({"return-value": 0, "stdout": "o", "stderr": "", "extra": "x"}),
             "builder" => json!({"id": "https://example.com/builder"}),
+            "recipe" if nest != "full" => json!({"type": "https://example.com/recipe"}),
+            "metadata" if nest == "empty" => json!({"completeness": {}}),
+            "metadata" if nest == "min" => json!({}),
+            "invocation" if nest == "empty" => json!({"configSource": {"uri": null}}),
+            "invocation" if nest == "min" => json!({}),
+            "materials" if nest != "full" && mat == "list" => {
+                if nest == "empty" {
+                    json!([{}, {"digest": {}}])
+                } else {
+                    json!([])
+                }
+            }
             "recipe" => json!({"type": "https://example.com/recipe", "definedInMaterial": 0, "entryPoint": "build"}),
             "metadata" => {
                 let mut m = json!({"buildInvocationId": "id-1", "completeness": {"arguments": true, "materials": false}, "reproducible": false});
@@ -353,7 +397,7 @@ fn type_string(v: &str) -> &'static str {
 pub fn run_pred(scn: &Value) -> Value {
     let d = &scn["desc"];
     let fields: Vec<String> = d["fields"].as_array().unwrap().iter().map(|f| f.as_str().unwrap().to_string()).collect();
-    let doc = pred_doc(&fields, d["mat"].as_str().unwrap(), d["ts"].as_str().unwrap());
+    let doc = pred_doc_nest(&fields, d["mat"].as_str().unwrap(), d["ts"].as_str().unwrap(), d["nest"].as_str().unwrap_or("full"));
     let text = doc.to_string();
     let (agree, detail, parsed) = channels::<PredicateWrapper>(&text);
     let mut res = json!({"out": if parsed.is_some() { "ok" } else { "err" }, "channels_agree": agree, "detail": detail});
